@@ -79,14 +79,18 @@ prim('url_ok', 'str -> bool', args=['u'],      # urllib can parse the URL (no Va
 # typestate of a sink (C02, C07): `finished` is a ghost flag, false for a new sink, set when the
 # context closes it; a sink is closed at most once - the parser proves that it hands every sink it
 # got from startSection to endSection exactly once (stack invariants below)
+# (endSection's parameter names are those of ConfigLoader.endSection, so that the behavioural-subtyping
+# obligation `an implementation may not demand more than the interface` is generated for it;
+# ConfigLoader.startSection additionally needs its schema to be well-formed, which is the loader's own
+# business - established by loadResource - and cannot be stated at this interface: names kept different)
 assumed('ParserContext.startSection', self_type='ParserContext',
         params={'section': 'Ref[Sink]', 'type_': 'str', 'name': 'Opt[str]'}, returns='Ref[Sink]',
         fresh_result=True, ensures=[Clause('fresh(result) and not result.finished', label='a-new-open-sink')],
         modifies=CTX_MOD, raises=[Raise('ZConfig.ConfigurationError+')])
 assumed('ParserContext.endSection', self_type='ParserContext',
-        params={'section': 'Ref[Sink]', 'type_': 'str', 'name': 'Opt[str]', 'newsect': 'Ref[Sink]'},
-        requires=[Clause('not newsect.finished', label='closed-at-most-once')],
-        modifies=CTX_MOD + ['newsect.finished'], raises=[Raise('ZConfig.ConfigurationError+', then=ERR_THEN + [
+        params={'parent': 'Ref[Sink]', 'type_': 'str', 'name': 'Opt[str]', 'matcher': 'Ref[Sink]'},
+        requires=[Clause('not matcher.finished', label='closed-at-most-once')],
+        modifies=CTX_MOD + ['matcher.finished'], raises=[Raise('ZConfig.ConfigurationError+', then=ERR_THEN + [
             Clause("implies(isa(exc, 'ZConfig.DataConversionError'), exc.has_lineno and "
                    "exc.lineno == raised_lineno(exc) and exc.url == raised_url(exc))")])])
 assumed('ParserContext.importSchemaComponent', self_type='ParserContext', params={'pkgname': 'str'},
